@@ -15,7 +15,8 @@ Require Import Cirbo.Model.Search Cirbo.Model.SearchCircuit.
 Require Cirbo.Model.SearchCases.
 Require Import Cirbo.Generated.SearchTables Cirbo.Generated.GateTypes.
 Require Import Cirbo.Proofs.SearchTablesFacts Cirbo.Proofs.SearchFacts Cirbo.Proofs.SearchSound
-               Cirbo.Proofs.SearchComplete Cirbo.Proofs.SearchSolve Cirbo.Proofs.SearchTyped.
+               Cirbo.Proofs.SearchComplete Cirbo.Proofs.SearchSolve Cirbo.Proofs.SearchTyped
+               Cirbo.Proofs.SearchSolverExists.
 Local Open Scope nat_scope.
 
 (* ---------- the regenerated tables (translator T3) ------------------- *)
@@ -111,9 +112,13 @@ Proof.
   exact (fun solve Hs => find_circuit_typed_total tt_to_gate_type solve Hs).
 Qed.
 
-(* the executable validity check the harness evaluates on returned circuits implies the class *)
-Theorem C06_validb_sound : forall sp c, validb sp c = true -> Valid sp c.
-Proof. exact validb_sound. Qed.
+(* the hypotheses on the solver are satisfiable (brute force over the variables of the formula) *)
+Theorem C06_solver_hypotheses_satisfiable : exists solve, solver_sound solve /\ solver_complete solve.
+Proof. exact sound_complete_solver_exists. Qed.
+
+(* the executable validity check the harness evaluates on returned circuits decides the class *)
+Theorem C06_validb_decides : forall sp c, validb sp c = true <-> Valid sp c.
+Proof. exact validb_spec. Qed.
 
 (* ---------- non-vacuity ---------------------------------------------- *)
 (* x0 xor x1 with a don't-care, one gate, basis XAIG (forbidden = the five other operations),
